@@ -98,11 +98,12 @@ RefConstruct(a, s, reg) ==
         \* "cancel": the constructor succeeds and cancels the context of the Build in progress.  The reference
         \* takes the verdict "Build completes" (no creation step follows in its order); the guards allow both.
         good == how \in {"ok", "cancel"}
+        fout == IF how = "nil" /\ r.shape = "ifacerr" THEN "unil" ELSE how    \* an interface result can be an UNTYPED nil
         outs == IF ~good THEN <<>>
                 ELSE IF Len(r.as) >= 2 THEN [i \in 1..nOut |-> n0]      \* one instance serves every alias
                 ELSE [i \in 1..nOut |-> n0 + i - 1]
         e    == [ev |-> "ctor", reg |-> reg, inv |-> inv, scope |-> s, args |-> ar.args, outs |-> outs,
-                 outcome |-> IF good THEN "ok" ELSE how, ign |-> TRUE]
+                 outcome |-> IF good THEN "ok" ELSE fout, ign |-> TRUE]
         a1   == Feed(ar.a, e)
         a2   == IF how = "cancel" /\ a1.st.cur.op = "build" THEN Feed(a1, [ev |-> "cancelbuild", reg |-> reg]) ELSE a1
     IN [a |-> a2, ok |-> good, outs |-> outs]
@@ -139,6 +140,7 @@ DisposalErr(es) == IF HasErr(es) THEN <<"disposal">> ELSE <<>>
 (***************************************************************************)
 FailErr(a) == IF a.st.cur.failed = "err" THEN <<"ctorError", "cause">>
               ELSE IF a.st.cur.failed = "panic" THEN <<"ctorPanic", "panicval">>
+              ELSE IF a.st.cur.failed = "unil" THEN <<"validation">>
               ELSE <<"notfound">>
 
 \* eager construction: singletons in a dependencies-first order, then root-scope initializers
@@ -285,14 +287,19 @@ TransCount(sc) == Cardinality({i \in InstIds(st) : st.inst[i].life = "transient"
 
 \* named initialization functions (live or removed) are resolvable identities ("V", name) too
 VoidIdentities == {[t |-> "V", k |-> st.cfg.regs[i].name] : i \in {j \in DOMAIN st.cfg.regs : IsInit(st.cfg.regs[j]) /\ st.cfg.regs[j].name # NONE}}
+\* the built-in types requested WITH a key: only the unkeyed request is a built-in (in configurations that use them)
+UsesBuiltins == \E i \in DOMAIN st.cfg.regs : \E j \in DOMAIN st.cfg.regs[i].params : st.cfg.regs[i].params[j].b # NONE
+KeyedBuiltins == IF UsesBuiltins THEN {[t |-> b, k |-> "k"] : b \in Builtins} ELSE {}
 Resolve == /\ Room /\ st.phase \in {"built", "closed"}
-           /\ \E sc \in Targets : \E i \in Identities \cup VoidIdentities :
+           /\ \E sc \in Targets : \E i \in Identities \cup VoidIdentities \cup KeyedBuiltins :
                 /\ TransCount(sc) < MaxTrans
-                /\ (HasProvider(st.cfg, i.t, i.k) \/ i.t = "V")
+                /\ (HasProvider(st.cfg, i.t, i.k) \/ i.t = "V" \/ i.t \in Builtins)
                 /\ Do(RefResolve(st, sc, i.t, i.k), OpRec("resolve", sc, NONE, i.t, i.k, NONE))
 
+\* a group nobody is a member of: an empty slice from an open scope, the disposed error from a closed one
+EmptyGroupIds == {[t |-> "S3", g |-> "nog"]}
 ResolveGroup == /\ Room /\ st.phase \in {"built", "closed"}
-                /\ \E sc \in Targets : \E gi \in GroupIds :
+                /\ \E sc \in Targets : \E gi \in GroupIds \cup EmptyGroupIds :
                      /\ TransCount(sc) < MaxTrans
                      /\ Do(RefGroupOp(st, sc, gi.t, gi.g), OpRec("group", sc, NONE, gi.t, NONE, gi.g))
 
